@@ -29,6 +29,7 @@ type Scenario struct {
 	CondErr bool     `json:"conderr"`
 	Hold    []string `json:"hold"`
 	NWait   int      `json:"nwait"` // extra waiting stages (scheduler modes), not part of the model
+	Allow   []bool   `json:"allow"` // allow_failure per task: must not turn an interruption into success
 	Dir     string   `json:"dir"`
 }
 
@@ -177,6 +178,9 @@ func Worker(arg string) int {
 		t.Name = fmt.Sprintf("t%d", i)
 		t.Before = []string{mkCmd(i, "b", h == "before")}
 		t.After = []string{mkCmd(i, "a", h == "after")}
+		if i-1 < len(sc.Allow) {
+			t.AllowFailure = sc.Allow[i-1]
+		}
 		tasks[i] = t
 		taskIdx[t.Name] = i
 	}
